@@ -429,7 +429,7 @@ fn configurations(ctx: &Ctx, thorough: bool) {
     // input family: field corruptions of the bases that load, M3, stack sprites
     let mut fams: Vec<faults::InputFam> = Vec::new();
     let bases = faults::based_files(false);
-    fams.extend(faults::m2(&bases, false).into_iter().filter(|f| f.name.starts_with("M2-field")));
+    fams.extend(faults::m2(&bases, false).into_iter().filter(|f| f.name.starts_with("M2-field") && (thorough || !f.name.ends_with("-big"))));
     fams.push(faults::m3());
     {
         let dims: Vec<usize> = (0..2).flat_map(|_| crate::props::c02::LAYER_DIMS.iter().copied()).collect();
